@@ -363,6 +363,23 @@ def r5_views(chk):
     ok = "self._atoms" in norm(pai.getter) and "yield_parent_atom_indices" in norm(pai.getter)
     chk.decide(ok, "C05.R5", "molli/chem/structure.py:Substructure.parent_atom_indices", f"{sub.module.relpath}:{pai.getter.lineno}",
                "indices of the substructure's own atoms in the parent", "parent_atom_indices is no longer computed from the substructure's own atoms")
+    # nothing derived from the (mutable) atom lists may be memoised on the object: a cached index list goes stale with the next
+    # add_atom / del_atom on the parent, and the view then reads and writes other atoms' rows
+    MEMO = ("cached_property", "functools.cached_property", "cache", "functools.cache", "lru_cache", "functools.lru_cache")
+    n_members = 0
+    for ci in [prog.cls("molli.chem.atom:Promolecule")] + prog.subclasses(prog.cls("molli.chem.atom:Promolecule")):
+        for nm, mem in ci.members.items():
+            node = mem.getter_raw or mem.func_raw
+            if node is None:
+                continue
+            n_members += 1
+            memo = [d for d in mem.decorators if d.split("(")[0] in MEMO]
+            reads_self = any(isinstance(x, ast.Attribute) and isinstance(x.value, ast.Name) and x.value.id == "self" for x in ast.walk(node))
+            if memo and reads_self:
+                chk.fail("C05.R5", f"{ci.module.relpath}:{ci.name}.{nm}:not-memoised", f"{ci.module.relpath}:{node.lineno}",
+                         f"{ci.name}.{nm} is decorated `@{memo[0]}` but is computed from the object's mutable state: after the first use it keeps returning the "
+                         "value of that moment - atom indices shift with every add_atom / del_atom, so a view built on the stale value addresses other atoms")
+    chk.ok("C05.R5", "molli.chem:Promolecule-hierarchy:derived-values-not-memoised", f"{sub.module.relpath}:{sub.node.lineno}", f"{n_members} methods / properties of the molecule classes inspected; none is memoised")
 
 
 def r6_validate_first(chk, cls):
@@ -467,4 +484,37 @@ def r7_sibling_resolvers(chk, cls):
     else:
         chk.decide(not missing, "C05.R7", key, gi.where(), f"get_atom {sa} / get_atom_index {si}",
                    f"get_atom accepts {sa} but get_atom_index only {si}: the same AtomLike resolves to an atom in one and fails (or means something else) in the other")
+    # where a designator can name several atoms (an element, a label) both resolvers must pick the same one: del_atom removes the
+    # atom found by get_atom and the coordinate / charge row found by get_atom_index
+    from ..canon import Env
+
+    def arm_value(f, arm):
+        rets = [r for st in arm.body for r in ([st] if isinstance(st, ast.Return) else [x for x in walk_no_nested(st) if isinstance(x, ast.Return)]) if r.value is not None]
+        if len(rets) != 1:
+            return None, None
+        return Env(f.node).expand(rets[0].value, keep=set(f.params()), at=rets[0]), rets[0]
+
+    da, di = dict(ca), dict(ci_)
+    for K in ("Element", "str"):
+        if K not in da or K not in di:
+            continue
+        ea, _ = arm_value(ga, da[K])
+        ei, ri = arm_value(gi, di[K])
+        chk.require(ea is not None and ei is not None, f"get_atom / get_atom_index: the `{K}` arm does not end in one return")
+        key = f"{gi.key}:{K}:same-atom-as-get_atom"
+        first = isinstance(ei, ast.Call) and norm(ei.func) in ("self._atoms.index", "self.atoms.index") and len(ei.args) == 1
+        if first:
+            chk.decide(norm(ei.args[0]) == norm(ea), "C05.R7", key, gi.where(ri), f"index of `{short(ea, 50)}`",
+                       f"get_atom({K}) picks `{short(ea, 50)}` but get_atom_index({K}) the index of `{short(ei.args[0], 50)}`: "
+                       "del_atom removes one atom and the coordinate / charge row of another")
+            continue
+        # a lookup in a mapping built over all atoms keeps the LAST atom of a repeated key; next(...) / .index(...) take the first
+        table = ei.value if isinstance(ei, ast.Subscript) else (ei.func.value if isinstance(ei, ast.Call) and isinstance(ei.func, ast.Attribute) and ei.func.attr == "get" else None)
+        if isinstance(table, ast.DictComp) or (isinstance(table, ast.Call) and call_name(table) == "dict"):
+            takes_first = isinstance(ea, ast.Call) and call_name(ea) == "next"
+            chk.decide(not takes_first, "C05.R7", key, gi.where(ri), "",
+                       f"get_atom({K}) takes the first atom that matches (`{short(ea, 40)}`), get_atom_index({K}) looks the designator up in `{short(table, 50)}`, "
+                       "which keeps the last atom of a repeated key: with two atoms of one label / element del_atom removes the first atom and the coordinate / charge row of the last")
+            continue
+        raise AnalysisError(f"{gi.key}: the `{K}` arm returns `{short(ei, 50)}` - cannot tell which of several matching atoms it picks")
     # every del_atom override that computes a row index does so from the same argument that get_atom resolves - covered by R1
